@@ -297,6 +297,7 @@ void vr_case(uint64_t seed, uint64_t idx, int profile)
             if (vr_chance(&r, 1, 10)) { v[0] = v[1] = v[2] = CMI_ANY_ITEM; }
             size_t expect = 0; for (size_t k = 0; k < mn; k++) if (pat_match(&M[k], v)) expect++;
             if (expect >= 2) { patmulti++; VR_CNT("pattern_ops_multi_match"); }
+            if (expect > 128) VR_CNT("pattern_ops_beyond_128_matches"); if (expect > 1024) VR_CNT("pattern_ops_beyond_1024_matches");
             if (code == 8) {
                 VR_CNT("op_pattern_find");
                 uint64_t k = cmi_hashheap_pattern_find(hp, v[0], v[1], v[2], v[3]);
@@ -350,6 +351,32 @@ void vr_case(uint64_t seed, uint64_t idx, int profile)
         if (maxops <= 600 || (op % 7) == 0) { snprintf(opsig, sizeof opsig, "op#%d code %d", op, code); if (!walk(opsig)) break; }
         /* tombstone statistics */
         if ((op & 63) == 0) { uint64_t tomb = 0, never = 0; for (uint64_t s = 0; s < hp->hash_size; s++) { if (hp->hash_map[s].key == 0) never++; else if (hp->hash_map[s].heap_index == 0) tomb++; } VR_MAX("max_tombstone_permille", tomb * 1000 / hp->hash_size); if (never == 0) VR_CNT("saw_no_never_used_slot"); }
+    }
+    /* mass cancellation: one pattern matching 129 .. 1500 entries among others that must stay */
+    if (vr_nviol == 0 && vr_chance(&r, 1, 4)) {
+        static const size_t KS[] = { 129, 130, 200, 257, 300, 1100, 1500 };
+        size_t K = KS[vr_below(&r, 7)];
+        for (size_t q = 0; q < K + K / 3 && vr_nviol == 0; q++) {
+            struct ent e; uint64_t askkey = (keymode == 1) ? ((0x7d0000000000ull + 64 * (++uid)) | 1) : 0; if (keymode == 1 && m_find(askkey) >= 0) continue;
+            e.item[0] = (q % 4 == 3) ? stored_alpha[1] : stored_alpha[0]; e.item[1] = stored_alpha[vr_below(&r, 4)];
+            e.item[2] = (void *)(uintptr_t)(++uid); e.item[3] = (void *)(uintptr_t)vr_mix(uid); e.d = pick_d(&r); e.i = pick_i(&r); if (kind == K_HOLD) e.d = 0.0;
+            uint64_t got = cmi_hashheap_enqueue(hp, e.item[0], e.item[1], e.item[2], e.item[3], askkey, e.d, e.i);
+            if (got == 0 || (askkey && got != askkey) || m_find(got) >= 0) { BAD("C02/enqueue-key", "mass phase: enqueue returned key %" PRIu64, got); break; }
+            if (!askkey) last_gen = got;
+            e.key = got; m_add(e);
+        }
+        void *v[4] = { stored_alpha[0], CMI_ANY_ITEM, CMI_ANY_ITEM, CMI_ANY_ITEM };
+        size_t expect = 0; for (size_t k = 0; k < mn; k++) if (pat_match(&M[k], v)) expect++;
+        if (vr_nviol == 0) {
+            uint64_t c = cmi_hashheap_pattern_count(hp, v[0], v[1], v[2], v[3]);
+            if (c != expect) BAD("C02/pattern-count", "mass phase: pattern_count=%" PRIu64 " expected %zu", c, expect);
+            else { c = cmi_hashheap_pattern_cancel(hp, v[0], v[1], v[2], v[3]);
+                if (c != expect) BAD("C02/pattern-cancel", "pattern_cancel of %zu matching entries among %zu returned %" PRIu64, expect, mn, c);
+                else { for (size_t k = 0; k < mn; ) { if (pat_match(&M[k], v)) m_del(k); else k++; }
+                    if (cmi_hashheap_pattern_count(hp, v[0], v[1], v[2], v[3]) != 0 || cmi_hashheap_count(hp) != mn) BAD("C02/pattern-cancel", "after cancelling %zu matches: %" PRIu64 " still match, count %" PRIu64 " (model %zu)", expect, cmi_hashheap_pattern_count(hp, v[0], v[1], v[2], v[3]), cmi_hashheap_count(hp), mn);
+                    else walk("mass cancel"); } }
+            VR_CNT("mass_pattern_cancels"); if (expect > 128) VR_CNT("pattern_ops_beyond_128_matches"); if (expect > 1024) VR_CNT("pattern_ops_beyond_1024_matches");
+        }
     }
     /* drain: full order check */
     if (vr_nviol == 0) {
